@@ -114,9 +114,11 @@ def run_case(case):
             data = data.astype(dt)
             d0 = data.copy()
             label = f"{kind} pattern={pattern} nbad={int(bad.sum())} data={mode} {np.dtype(dt).name}"
+            pexp, krig = 1.3, 20.0
             res.count("interp_cases")
             try:
-                out = V.interpolate_bad_channels(data, labels.copy(), h["x"], h["y"])
+                pexp, krig = (1.3, 20.0) if rng.random() < 0.6 else (float(rng.choice([1.0, 1.3, 2.0])), float(rng.choice([10.0, 20.0, 40.0])))
+                out = V.interpolate_bad_channels(data, labels.copy(), h["x"], h["y"], p=pexp, kriging_distance_um=krig)
             except Exception as e:
                 res.exception("interp:exception", e, label)
                 continue
@@ -128,7 +130,7 @@ def run_case(case):
             nviol = 0
             for i in np.flatnonzero(bad):
                 d = np.abs(xy - xy[i])
-                w = np.exp(-((d / 20.0) ** 1.3))
+                w = np.exp(-((d / krig) ** pexp))
                 donors = np.flatnonzero(good & (w >= 0.005))
                 res.count("bad_rows_checked")
                 if donors.size == 0:
